@@ -155,6 +155,9 @@ class Interp:
                 da, db = c.res(a[1]), c.res(b[1])
                 if isinstance(n.op, ast.Sub) and isinstance(da, str) and isinstance(db, str) and da != db and '-' not in da + db:
                     return ('int', '%s-%s' % (da, db))        # a derived extent (N-M): equal only to itself
+                if isinstance(n.op, ast.Mult) and isinstance(da, str) and isinstance(db, str) and '-' not in da + db and '.' not in da + db:
+                    # a product of extents (the length of a merged axis): a commutative product, written with sorted factors
+                    return ('int', '*'.join(sorted(da.split('*') + db.split('*'))))
                 return ('int', U())
             if isinstance(n.op, ast.MatMult):
                 return self.dot(n, a, b)
@@ -384,7 +387,7 @@ class Interp:
             if recv is not None and recv[0] == 'obj' and shp is not None and shp[0] == 'shp':
                 return ('obj', tuple(recv[1][:2]) + tuple(shp[1]))
             if recv is not None and recv[0] == 'arr' and shp is not None and shp[0] == 'shp':
-                return arr(shp[1])
+                return arr(self.reshape_dims(n, tuple(recv[1]), tuple(shp[1])))
         if isinstance(n.func, ast.Name) and n.func.id in ('cls', 'UTPM') and len(args) == 1:
             v = self.ev(args[0])
             return ('obj', v[1]) if v is not None and v[0] == 'arr' else None
@@ -531,6 +534,49 @@ class Interp:
         o = kw.get('out')
         if o is not None and r is not None and r[0] == 'arr':
             self.fits(n, self.shape_of(o), r[1], what='out= of `%s`' % (dotted_name(n.func) or '?'))
+
+    def reshape_dims(self, node, src, tgt):
+        """C-order reshape with merged axes kept apart by order: merging a run of source axes (D, P, K) into one of length D*P*K gives the
+        ordered extent 'D.P.K'; splitting such an extent again must give the axes back in that order - `(.., P, D, K)` interleaves the data"""
+        c = self.ctx
+        src = tuple(c.res(d_) for d_ in src)
+        out = []
+        tgt = [c.res(d_) for d_ in tgt]
+        # split: a run of plain target extents whose product is an ordered merged source extent
+        merged_src = [d_ for d_ in src if isinstance(d_, str) and '.' in d_]
+        i = 0
+        while i < len(tgt):
+            t = tgt[i]
+            done = False
+            if isinstance(t, str) and '*' in t:
+                fac = sorted(t.split('*'))
+                for k in range(len(src)):
+                    for l in range(k + 2, len(src) + 1):
+                        run = src[k:l]
+                        if all(isinstance(x, str) and '.' not in x and '*' not in x and '-' not in x for x in run) and sorted(run) == fac:
+                            out.append('.'.join(run))
+                            done = True
+                            break
+                    if done:
+                        break
+            if not done:
+                for ms in merged_src:
+                    parts = ms.split('.')
+                    run = tgt[i:i + len(parts)]
+                    if len(run) == len(parts) and all(isinstance(x, str) for x in run) and sorted(run) == sorted(parts):
+                        if list(run) != parts:
+                            c.conflict(node, 'reshape splits the merged axis (%s) as (%s): the axes were merged in the order (%s), C-order reshaping gives '
+                                             'them back in that order only (`%s`)' % (', '.join(parts), ', '.join(run), ', '.join(parts), norm(node)[:70]))
+                        else:
+                            c.decided += 1
+                        out.extend(run)
+                        i += len(parts) - 1
+                        done = True
+                        break
+            if not done:
+                out.append(t)
+            i += 1
+        return tuple(out)
 
     def transpose(self, node, s, ax):
         if s is None:
